@@ -117,7 +117,9 @@ def analyse(sh, items, tier):
             mn, sig = 'MMX/SSE', '*'
             pc = 'addr16-prefix-ignored' if '67' in pc else ('segment-prefix-changes-operand-decoding' if 'seg' in pc else pc)
         opc0 = next((c for c in b if c not in x86space.PREFIX_BYTES), 0)
-        if opc0 in (0xc4, 0xc5, 0x62) and x86ref.ref_mnemonic(rt).startswith('v'):
+        iop = next((k for k, c in enumerate(b) if c not in x86space.PREFIX_BYTES), 0)
+        if opc0 in (0xc4, 0xc5, 0x62) and (x86ref.ref_mnemonic(rt).startswith('v') or (len(b) > iop + 1 and b[iop + 1] >= 0xc0)):
+            # c4/c5/62 followed by a mod=3 byte is a VEX/EVEX prefix in 32-bit mode (vaddps, kandnw, ...)
             mn, sig = 'VEX', '*'
         key = '%s/%s/%s/p=%s' % (kind, mn, sig, pc)
         if kind == 'len':
@@ -134,6 +136,7 @@ def shards(tier, seed):
     per = 8
     out = [('cells', i, per) for i in range(0, len(cl), per)]
     out += [('prefixes', i, 32) for i in range(0, len(cl), 32)]
+    out += [('addr16', i, 16) for i in range(0, len(cl), 16)]
     return out
 
 
@@ -145,6 +148,11 @@ def run_shard(shard, tier, seed):
         sibs = x86space.SIB_QUICK[:4] if tier == 'quick' else x86space.SIB_ALL64[::4] + x86space.SIB_QUICK
         for cell in cl:
             for b, cls in x86space.strings_for_cell(cell, tier, seed, prefixes=x86space.STD_PREFIXES, sibs=sibs, nfill=1 if tier == 'quick' else 3):
+                items.append((b, cls))
+    elif shard[0] == 'addr16':
+        # the 16-bit ModRM table (67 prefix): every ModRM value of every opcode cell
+        for cell in cl:
+            for b, cls in x86space.strings_for_cell(cell, 'quick', seed, prefixes=[b'\x67'] if tier == 'quick' else [b'\x67', b'\x66\x67', b'\x67\x2e'], sibs=[0x24], nfill=1):
                 items.append((b, cls))
     else:
         modrms = (0x00, 0x05, 0x44, 0x84, 0xc1, 0xd8, 0xf9, 0x24) if tier == 'quick' else tuple(range(0, 256, 5)) + (0x04, 0x44, 0x84, 0x05, 0xc0, 0xff)
